@@ -13,6 +13,10 @@ use crate::spec::*;
 pub const ID: &str = "C07";
 
 pub fn judge(case: &Case) -> Outcome {
+    if case.kind == "c07.regex_sets" {
+        // regexes on one field in separate mappings: engine vs engine under all 16 switch sets
+        return crate::checks::c01::judge(case);
+    }
     let results = match c02::eval_case(case) {
         Ok(r) => r,
         Err(o) => return o,
@@ -151,6 +155,39 @@ pub fn build_cases(tier: &str) -> Vec<Case> {
             ));
         }
     }
+    // plain lists around and beyond 256 needles of one case class (the members are ordered and
+    // batched by relation kind before the automaton is built): every member must still count
+    for (len, ci) in [(255usize, false), (256, false), (257, false), (300, true), (512, false), (513, false), (600, true)] {
+        let needle = |i: usize| format!("n{:03}x", i);
+        let members: Vec<ValSpec> = (0..len)
+            .map(|i| {
+                let n = needle(i);
+                let t = match i % 4 {
+                    0 => format!("{n}*"),
+                    1 => format!("*{n}*"),
+                    2 => format!("*{n}"),
+                    _ => n,
+                };
+                ValSpec::Str(if ci { format!("i{t}") } else { t })
+            })
+            .collect();
+        // documents matched by exactly one member: the first and the last of every relation kind,
+        // and near misses
+        let mut hays: Vec<String> = vec![];
+        for i in (0..8).chain(len - 8..len) {
+            let n = needle(i);
+            hays.push(match i % 4 {
+                0 => format!("{n}zz"),
+                1 => format!("zz{n}zz"),
+                2 => format!("zz{n}"),
+                _ => n.clone(),
+            });
+            hays.push(format!("z{n}z"));
+            hays.push(n.to_uppercase());
+        }
+        hays.push("zz".into());
+        cases.push(case_for("c07.big_list", ValSpec::List(members), &docs_of(&hays), "list beyond 256 needles"));
+    }
     cases
 }
 
@@ -181,6 +218,8 @@ fn long_pattern() -> BoxedStrategy<String> {
         }),
         2 => prop::sample::select(vec![
             "?a", "?^a", "?b$", "?a.b", "?[ab]+c", "?é", "?^.a", "?\\d", "?a|B", "?.*ab.*", "?^.*a", "?b.*$", "?^.*ab", "?ab.*$", "?.b",
+            // anchored literals: Unicode case folding knows K (U+212A) and U+017F, ASCII folding does not
+            "?^k$", "?^s", "?k$", "?^ks$", "?sk",
         ])
         .prop_map(|s| s.to_string()),
     ];
@@ -270,13 +309,31 @@ pub fn run(tier: &str, seed: u64) -> i32 {
     for s in chunks {
         report.merge(s);
     }
+    // regexes that compile on their own but not as one set stay separate searches, each with its
+    // own case flag
+    for body in [
+        "  - h: 'i?a\\w{100}'\n  - h: 'i?b\\w{100}'\n  - h: 'i?c\\w{100}'\n",
+        "  - h: '?a\\w{100}'\n  - h: 'i?b\\w{100}'\n  - h: '?c\\w{100}'\n  - h: 'i?d\\w{100}'\n  - h: 'i?e\\w{100}'\n",
+    ] {
+        let mut c = Case::new("c07.regex_sets");
+        c.rules = vec![format!("detection:\n  A:\n{body}  condition: A\ntrue_positives: []\ntrue_negatives: []\n")];
+        c.docs = ["A", "B", "a", "C", "e", "E", "z"]
+            .iter()
+            .flat_map(|h| [format!("{h}{}", "x".repeat(100)), format!("{h}{}", "X".repeat(100))])
+            .map(|t| DObj(vec![("h".to_string(), DocVal::Str(t))]))
+            .collect();
+        let out = judge(&c);
+        report.label("regexes_beyond_the_set_size_limit");
+        report.record(&c, out);
+    }
     let n = if tier == "thorough" { 400_000 } else { 20_000 };
     let strat = || {
         (
             prop::collection::vec(long_pattern(), 1..=6),
-            prop::collection::vec("[abAB éÉ\n]{0,6}", 0..=4),
+            prop::collection::vec(prop_oneof![3 => "[abAB éÉ\n]{0,6}", 1 => "[kKsS\u{212a}\u{17f}]{1,2}"], 0..=4),
             prop::collection::vec(any::<u8>(), 6),
             any::<bool>(),
+            prop::bool::weighted(0.25),
         )
     };
     gen::drive(
@@ -284,7 +341,23 @@ pub fn run(tier: &str, seed: u64) -> i32 {
         3,
         n,
         strat,
-        |(members, extra, variant, as_array): &(Vec<String>, Vec<String>, Vec<u8>, bool)| {
+        |(members, extra, variant, as_array, twins): &(Vec<String>, Vec<String>, Vec<u8>, bool, bool)| {
+            // now and then every member also appears with the other case flag (equal needles, one
+            // batch case-sensitive and one case-insensitive)
+            let members: Vec<String> = if *twins {
+                members
+                    .iter()
+                    .cloned()
+                    .chain(members.iter().map(|m| match m.strip_prefix('i') {
+                        Some(rest) if !rest.is_empty() => rest.to_string(),
+                        _ => format!("i{m}"),
+                    }))
+                    .filter(|t| matches!(crate::reference::parse_pattern(t, false), Ok(p) if p.is_string_kind()))
+                    .collect()
+            } else {
+                members.clone()
+            };
+            let members = &members;
             let hays = haystacks_for(members, extra, variant);
             let mut docs = docs_of(&hays);
             docs.push(DObj::default());
@@ -304,7 +377,7 @@ pub fn run(tier: &str, seed: u64) -> i32 {
             vec![case_for("c07.sampled_list", val, &docs, "sampled")]
         },
         judge,
-        |(members, _, _, _), rep| {
+        |(members, _, _, _, _), rep| {
             rep.label(&format!("list_len_{}", members.len()));
             if members.iter().any(|m| !m.is_ascii()) {
                 rep.label("has_multibyte_member");
